@@ -538,6 +538,19 @@ fn run_free(sc: &Scenario, st: &mut RunStats) -> Vec<Violation> {
             }
             ws.push(-hits[0]);
         }
+        // the published batch check combines the members with independent random factors
+        for x in 0..ws.len() {
+            for y in 0..x {
+                if ws[x] == ws[y] {
+                    out.push(Violation::new(
+                        "batch_members_share_one_combination_factor",
+                        "batch",
+                        format!("batch of {} ({:?}): members {} and {} enter the verifier's final check with the same factor", k, srcs, y, x),
+                    ));
+                    return out;
+                }
+            }
+        }
         let mut sum = FreePoint::zero();
         for (w, r) in ws.iter().zip(ref_res.iter()) {
             sum.add_scaled(w, r);
